@@ -98,6 +98,9 @@ def main():
                 "events": obs[len(obs) // 2]["obs"].get("events", [])[:4]})
     # harness-level failures (panic / hang / io error) are contract events: judged below by the trace
     # spec as well (tag fields), but a case without events cannot be validated at all
+    skipped = [o for o in obs if o["obs"].get("result") == "skipped"]
+    obs = [o for o in obs if o["obs"].get("result") != "skipped"]
+    run.cov["skipped_after_repeated_failures"] = len(skipped)
     bad_shape = [o for o in obs if "events" not in o["obs"]]
     for o in bad_shape[:5]:
         run.violation("replay of a legal schedule ended with %s: %s" % (o["obs"].get("result"), o["obs"].get("err", "")[:200]),
@@ -136,6 +139,8 @@ def main():
     lin_ok = 0
     tgood = []
     for o in tobs:
+        if o["obs"].get("result") == "skipped":
+            continue
         if o["obs"].get("result") != "ok":
             run.violation("threaded run: %s" % o["obs"].get("result"), {"kind": "tfb_threads", "case": o})
         else:
